@@ -366,8 +366,12 @@ def gen_blocks(seed, big):
         nbody = rnd.randint(2, 4) if unwrap else rnd.randint(0, 3)
         inner = []
         for _ in range(nbody):
-            if depth < 2 and rnd.random() < 0.3:
+            c_ = rnd.random()
+            if depth < 2 and c_ < 0.3:
                 inner.append(('elem', elem(depth + 1, ind + '  ')))
+            elif c_ < 0.42:
+                # an empty line or a line of indentation only (compared lines are the non-blank ones)
+                inner.append(('line', rnd.choice(['', ind + '  ', ind + '    ', '\t'])))
             else:
                 inner.append(('line', ind + '  ' + line()))
         return dict(tag=tag, attrs=attrs + (' unwrap-block' if unwrap else ''), ready=ready, unwrap=unwrap, inner=inner, ind=ind)
@@ -386,7 +390,7 @@ def gen_blocks(seed, big):
             if k == 'line':
                 src.append(x)
                 wrapper = e['unwrap'] and e['ready'] and can_unwrap and i in (0, len(inner) - 1)
-                if alive and not gone_all and not wrapper:
+                if alive and not gone_all and not wrapper and x.strip():
                     exp.append(x.strip())
             else:
                 render(x, ds, de, alive and not gone_all, src, exp)
@@ -628,7 +632,24 @@ def gen_dedent_nested(seed, big):
                 k = next((i for i, (a, b) in enumerate(zip(got, exp)) if a != b), min(len(got), len(exp)))
                 return f'nested unwrap: surviving line {k} is {got[k] if k < len(got) else None!r}, expected {exp[k] if k < len(exp) else None!r} (source {source!r})'
             return None
-        out.append((dict(cfg(), mode='clean', source=source, ds='<', de='>'), oracle))
+        out.append((dict(cfg(), mode='clean', source=source, ds='<', de='>', _exp=exp), oracle))
+    return out
+
+
+def gen_nested_text_survives(seed, big):
+    """C02 on the nested unwrap documents of gen_dedent_nested (removed elements and blank lines inside unwrapped bodies,
+    depth 1..3): the text of every surviving line is still there, in order - indentation is not looked at here"""
+    out = []
+    for req, _ in gen_dedent_nested(seed + 200, big):
+        want = [l.strip() for l in req['_exp']]
+        def oracle(r, want=want, src=req['source']):
+            if not r.get('ok'):
+                return 'clean panicked: ' + str(r.get('panic'))[:160]
+            got = [l.strip() for l in r['output'].split('\n') if l.strip()]
+            if got != want:
+                return f'text outside the removed extents is missing or changed: lines {got}, expected {want} (source {src!r})'
+            return None
+        out.append(({k: v for k, v in req.items() if k != '_exp'}, oracle))
     return out
 
 
@@ -722,6 +743,37 @@ def gen_dedent_crlf(seed, big):
                 return f'CRLF unwrap-block: a line break of the output is no longer CR LF: {o!r} (source {source!r})'
             return None
         out.append((dict(cfg(), mode='clean', source=source, ds='<', de='>'), oracle))
+    return out
+
+
+def gen_unwrap_four_lines(seed, big):
+    """C11, counted in lines: a ready unwrap-block between two non-blank neighbour lines loses exactly its four lines -
+    every inner line, blank ones included (also as first or last inner line), is still there, in order (lines compared
+    trimmed; the neighbours are non-blank so that no blank-line tidying outside the element interferes)."""
+    rnd = random.Random(seed + 15)
+    out = []
+    for _ in range(300 if big else 100):
+        ind = rnd.choice(['', '  ', '\t'])
+        n = rnd.randint(1, 5)
+        body = []
+        for i in range(n):
+            k = rnd.choice(['text', 'text', 'empty', 'blank'])
+            body.append('' if k == 'empty' else (ind + '  ' if k == 'blank' else ind + '  ' + rnd.choice(['x();', 'これ', 'a = "é";']) + str(i)))
+        w1, w2 = ind + rnd.choice(['if (x) {', '{', 'begin // é']), ind + rnd.choice(['}', '} // 終了', 'end'])
+        tag = rnd.choice([f"{RM} name='f1' unwrap-block", f"{TL} to='{PAST}' unwrap-block"])
+        close = RM if tag.startswith(RM) else TL
+        lines = ['before();', ind + f'<{tag}>', w1] + body + [w2, ind + f'</{close}>', 'after();']
+        src = '\n'.join(lines) + '\n'
+        want = ['before();'] + [l.strip() for l in body] + ['after();']
+        def oracle(r, want=want, src=src):
+            if not r.get('ok'):
+                return 'clean panicked: ' + str(r.get('panic'))[:160]
+            o = r['output']
+            got = [l.strip() for l in (o[:-1] if o.endswith('\n') else o).split('\n')]
+            if got != want:
+                return f'unwrap-block: the output has lines {got}, expected exactly the input minus four lines {want} (source {src!r})'
+            return None
+        out.append((dict(cfg(), mode='clean', source=src, ds='<', de='>'), oracle))
     return out
 
 
@@ -994,7 +1046,7 @@ def _back_same(t, d):
 
 GENERATORS = {
     'C01': [gen_totality], 'C04': [gen_identity, gen_identity_unwrappable, gen_identity_unrecognised], 'C07': [gen_partition], 'C08': [gen_recognition], 'C05': [gen_expiry], 'C06': [gen_marker],
-    'C09': [gen_grammar], 'C10': [gen_pairing], 'C02': [gen_blocks, gen_inline], 'C03': [gen_blocks, gen_inline], 'C11': [gen_blocks, gen_unwrap_wrappers], 'C17': [gen_list_all],
+    'C09': [gen_grammar], 'C10': [gen_pairing], 'C02': [gen_blocks, gen_inline, gen_nested_text_survives], 'C03': [gen_blocks, gen_inline, gen_nested_text_survives], 'C11': [gen_blocks, gen_unwrap_wrappers, gen_unwrap_four_lines], 'C17': [gen_list_all],
     'C12': [gen_dedent, gen_dedent_nested, gen_dedent_crlf], 'C13': [gen_blanklines, gen_lines_intact], 'C14': [gen_inline, gen_dedent_nested, gen_unwrap_lines_intact], 'C15': [gen_list_regions],
 }
 
